@@ -225,10 +225,45 @@ func verifyFunc(L *Loaded, fn *ssa.Function, fc *FuncContract) (res *FuncResult)
 		}
 	}
 	ex.entry = &EntryInfo{Fn: fn, Params: params, FC: fc}
+	sumSeqs = map[int]*Term{}
+	seqReadHook = func(s *State, o *Object, idx *Term, v Value) {
+		defer func() {
+			if r := recover(); r != nil {
+				if _, ok := r.(*execError); ok {
+					return
+				}
+				panic(r)
+			}
+		}()
+		if o == nil || o.Seq == nil {
+			return
+		}
+		e := &Env{ex: ex, st: s, vars: map[string]tv{}, in: "element read"}
+		if o.Seq.allWF != nil {
+			// assumed (not proved): nested universal facts of the element (allwf of its own lists) are recorded too
+			g := ULt(idx, o.Seq.allWF)
+			e.assuming, e.guard = true, g
+			s.assume(Implies(g, e.wfOf(v, o.Seq.elemT)))
+		}
+		if ln, ok := sumSeqs[o.Seq.id]; ok {
+			e.sumTerm(VSlice{Obj: o.ID, Off: Const(64, 0), Len: ln, Cap: ln}, o.Seq.elemT, Add(idx, Const(64, 1)))
+		}
+	}
 	env := ex.frameEnv(st, fr)
+	if fc != nil && len(fc.RefinePre) > 0 {
+		// behavioural subtyping: the interface's preconditions must imply this implementer's own
+		rs := st.clone()
+		for _, r := range fc.RefinePre {
+			ex.assumeClause(rs, env, r)
+		}
+		for i, r := range fc.Requires {
+			g := ex.evalBoolClause(rs, env, r)
+			ex.emit(rs, fr, "refine/pre", fmt.Sprint(i+1), "interface preconditions imply requires "+r.Text, g, r.Props, fn.Pos())
+		}
+	}
 	if fc != nil {
 		for _, r := range fc.Requires {
-			st.assume(ex.evalBoolClause(st, env, r))
+			ex.assumeClause(st, env, r)
 		}
 	}
 	// snapshot
@@ -269,7 +304,11 @@ func (ex *Exec) atReturn(st *State, fr *Frame, fc *FuncContract, rets []Value) {
 		}
 		for i, en := range fc.Ensures {
 			g := ex.evalBoolClause(st, env, en)
-			ex.emit(st, fr, "post", fmt.Sprint(i+1), "ensures "+en.Text, g, en.Props, fn.Pos())
+			lab := fmt.Sprint(i + 1)
+			if en.Label != "" {
+				lab = en.Label
+			}
+			ex.emit(st, fr, "post", lab, "ensures "+en.Text, g, en.Props, fn.Pos())
 		}
 	}
 	if fc != nil {
